@@ -189,6 +189,11 @@ func (t *memTransport) serveUDP(c *net.UDPConn, lateDelay time.Duration) {
 			r = t.onTx(append([]byte(nil), buf[:n]...))
 		}()
 		now, late := t.sock, t.late
+		for _, a := range t.sockA { // replies written to the socket right away: the library will read them
+			if a != nil {
+				t.log(M{"ev": "rx", "attrs": a, "sent": true})
+			}
+		}
 		t.sock, t.sockA, t.late, t.lateA = nil, nil, nil, nil
 		delay := time.Duration(0)
 		if d, ok := r["delayMs"]; ok {
@@ -446,6 +451,7 @@ func (r *runner) invoke(ctx context.Context, s M, ret M) {
 		code, err := tg.SendCommand(ctx, cmd)
 		setErr(err)
 		ret["code"] = int(code)
+		ret["cmdName"] = cmd.Name()
 		if f := reflect.ValueOf(cmd).Elem().FieldByName("Rsp"); f.IsValid() {
 			ret["value"] = project(f)
 		}
@@ -466,6 +472,7 @@ func (r *runner) invoke(ctx context.Context, s M, ret M) {
 		code, err := tg.SendCommand(ctx, cmd)
 		setErr(err)
 		ret["code"] = int(code)
+		ret["cmdName"] = cmd.Name()
 		ret["value"] = M{"data": toInts(cmd.rsp.data)}
 	case "Method":
 		// any exported method of the connection/session taking (ctx, args...) and
